@@ -28,6 +28,7 @@ RULE = ('A program is a sequence of operators from {pos, neg, add, radd, sub, rs
         'tree with >= 2 siblings.')
 RULE += ' Added classes: NumPy-typed scalar operands (np.float32 / np.int16 / np.float64 / np.int64); expression trees in which refused accesses (row out of range, step != 1, bad channel) are interleaved with reads of the same readers.'
 RULE += ' Round 5: boolean masks (full width and width 2) and runs of negative indices among the channel selections.'
+RULE += ' Round 6: integer channel selections (the channel axis is dropped) and empty ones; every one-operator program, and every two-operator program starting with a selection, on the multi-file / npy / compressed backends.'
 EXHAUSTIVE = {'quick': True, 'thorough': True}
 EXHAUSTIVE_SCOPE = {'quick': 'all programs of depth <= 2 on int16 and float32 (array backend)',
                     'thorough': 'depth <= 2 on every dtype, depth 3 on int16 (array backend)'}
